@@ -162,6 +162,10 @@ func c19Run(t *testing.T, c c19Case) (leaks []string, sites map[string]bool, abo
 			if c.Fault == "bad-source-password" {
 				m.Password = "something-else"
 			}
+			if c.Fault == "no-master" {
+				// every node of the shard reports role:slave: discovery gives up after its retries
+				m.Role = "slave"
+			}
 			psyncs := 0
 			m.PsyncReply = func(p msource.Psync) string {
 				psyncs++
@@ -186,6 +190,9 @@ func c19Run(t *testing.T, c c19Case) (leaks []string, sites map[string]bool, abo
 			}
 			tgt := mredis.New(topt)
 			hook.SetDialHook(func(network, addr string) (net.Conn, error, bool) {
+				if c.Fault == "source-unreachable" && strings.HasPrefix(addr, "src") {
+					return nil, fmt.Errorf("dial tcp %s: connect: connection refused", addr), true
+				}
 				cc, sc := memconn.Pair(addr)
 				if strings.HasPrefix(addr, "src") {
 					go m.Serve(sc)
@@ -204,7 +211,11 @@ func c19Run(t *testing.T, c c19Case) (leaks []string, sites map[string]bool, abo
 			go ds.Sync()
 			sentRDB := 0
 			stream := append(append([]byte{}, srcSym{Argv: []string{"SELECT", "1"}}.bytes()...), srcSym{Argv: []string{"SET", "k3", "v"}}.bytes()...)
-			for step := 0; step < 14; step++ {
+			nsteps := 14
+			if c.Fault == "no-master" || c.Fault == "source-unreachable" {
+				nsteps = 40 // discovery retries for 6+5+4+3+2+1 seconds
+			}
+			for step := 0; step < nsteps; step++ {
 				synctest.Wait()
 				// answer every new PSYNC with the RDB / nothing
 				if n := len(m.Psyncs()); n > sentRDB {
@@ -285,7 +296,7 @@ func TestVerif_C19(t *testing.T) {
 	for _, level := range []string{"debug", "info"} {
 		for _, st := range []string{"standalone", conf.RedisTypeCluster} {
 			for _, resume := range []bool{false, true} {
-				for _, fault := range []string{"", "source-cut", "target-error", "bad-source-password", "unknown-auth-type"} {
+				for _, fault := range []string{"", "source-cut", "target-error", "bad-source-password", "unknown-auth-type", "no-master", "source-unreachable"} {
 					idx++
 					if !ev.Mine(idx) {
 						continue
